@@ -33,7 +33,8 @@ def gen(ctx):
     expect = {
         (aut, "_import_file"): ["fullpath.is_symlink() or not fullpath.is_file()", "fullpath.resolve() != root.joinpath(path)", "path.name[0] == '.'",
                                 "any((part.startswith('.alpentemp') for part in path.parts[:-1]))", "not node.io.ready_path(path)", "node.io.locked(path)", "acq_name is not None",
-                                "rejection_reason", "node.db.named_copy_tracked(acq_name, file_name)", "register", "register", "copy.wants_file == 'Y'", "callable(callback)"],
+                                "rejection_reason", "file_name is None or invalid_import_path(str(file_name))", "node.db.named_copy_tracked(acq_name, file_name)", "register", "register",
+                                "copy.wants_file == 'Y'", "callable(callback)"],
         (aut, "import_file"): ["path == pathlib.PurePath(node.db.root)", "path.is_absolute()", "pathlib.PurePath(node.db.root).joinpath(path) == pathlib.PurePath(node.db.root).joinpath('ALPENHORN_NODE')"],
         (upd, "UpdateableNode.update_import"): ["path.is_absolute()", "req.path == 'ALPENHORN_NODE'", "req.recurse", "rejection_reason"],
     }
@@ -45,7 +46,7 @@ def gen(ctx):
              "path.is_absolute()": ("absolute", "bool"), "req.path": ("req_path", "str"), "req.recurse": ("recurse", "bool")}
     d = [
         T.nth_test(aut, "_import_file", 0, {}, "g_not_a_file", ["is_symlink", "is_file"], atoms=atoms),
-        T.nth_test(aut, "_import_file", 11, {}, "g_revive_suspect", atoms=atoms),
+        T.nth_test(aut, "_import_file", 12, {}, "g_revive_suspect", atoms=atoms),
         T.nth_test(upd, "UpdateableNode.update_import", 0, {}, "g_vet_absolute", atoms=atoms),
         T.nth_test(upd, "UpdateableNode.update_import", 1, {}, "g_vet_marker", atoms=atoms),
         T.nth_test(upd, "UpdateableNode.update_import", 2, {}, "g_vet_recurse", atoms=atoms),
@@ -117,7 +118,7 @@ def install_detector():
 
 # ---- family A: one import request per case ----------------------------------------------------------------------------------
 KINDS = ["regular", "regular", "nested", "dot", "symlink", "dir", "fifo", "locked", "temp", "via_symlink", "missing", "root_file"]
-DET = ["default", "default", "default", "nested_acq", "none", "bad1", "bad2", "bad3"]
+DET = ["default", "default", "default", "nested_acq", "none", "bad1", "bad2", "bad3", "whole", "sibling", "strprefix"]
 ROWS = [None, None, ("N", "Y"), ("N", "N"), ("Y", "Y"), ("X", "Y"), ("Y", "N")]  # (M, *) would be re-verified by the check task of the same pass
 
 
@@ -209,6 +210,10 @@ def run_case(ctx, base, case):
         elif det.startswith("bad") and kind in ("regular", "locked"):
             detected = {"bad1": "acq/../acq", "bad2": "acq//", "bad3": "./acq"}[det]
             DETECT["map"][rel] = detected
+        elif det in ("whole", "sibling", "strprefix") and kind in ("regular", "nested", "locked"):
+            # canonical names that are not a proper parent of the path: the path itself (file name "."), another directory, a string prefix
+            detected = {"whole": rel, "sibling": "elsewhere", "strprefix": acq[:-1]}[det]
+            DETECT["map"][rel] = detected
         else:
             detected = acq
         if detected and not w.util.invalid_import_path(detected) if hasattr(w, "util") else False:
@@ -218,6 +223,8 @@ def run_case(ctx, base, case):
             try:
                 fname = str(pathlib.PurePath(rel).relative_to(detected))
                 acq_name = detected
+                if fname == ".":
+                    fname = None
             except ValueError:
                 fname = None
         # pre-existing records
@@ -294,7 +301,7 @@ def run_case(ctx, base, case):
         terms = {}
         if vet is None:
             fx = (f"(FX {cbool(kind == 'symlink')} {cbool(kind in ('regular', 'nested', 'dot', 'locked', 'temp', 'root_file', 'via_symlink'))} {cbool(kind == 'dot')} {cbool(kind == 'temp')} "
-                  f"{cbool(kind == 'via_symlink')} {cbool(kind == 'locked')} {copt(detected, cstr, 'str')} {cbool(case['register'])} {cbool(acq_row is not None)} {cbool(file_row is not None)} "
+                  f"{cbool(kind == 'via_symlink')} {cbool(kind == 'locked')} {cstr(rel)} {copt(detected, cstr, 'str')} {cbool(case['register'])} {cbool(acq_row is not None)} {cbool(file_row is not None)} "
                   f"{copt(crow, lambda r: ctup(HAS[r[0]], WANTS[r[1]]), '(has * wants)')})")
             obs = ctup(cbool(done), cbool(after_counts[0] > before_counts[0]), cbool(after_counts[1] > before_counts[1]), copt(cr_after, lambda r: ctup(HAS[r[0]], WANTS[r[1]]), "(has * wants)"))
             terms["i"] = ctup(fx, obs)
